@@ -37,6 +37,7 @@ type CHFContext struct {
 	NfService                 map[models.ServiceName]models.NrfNfManagementNfService
 	RecordSequenceNumber      map[string]int64
 	LocalRecordSequenceNumber uint64
+	ChargingSessionSequence   uint64 // number of charging session references handed out (atomic)
 	NrfUri                    string
 	NrfCertPem                string
 	UePool                    sync.Map
